@@ -21,12 +21,21 @@ Modelled as coded:
     `res[colind] += value * force` in storage order);
   * the addition of `qfrc_gravcomp` on joints with actgravcomp and the joint-level clamp
     `clampVec(qfrc_actuator, jnt_actfrcrange, jnt_actfrclimited, njnt, jnt_dofadr)` (first dof of the joint).
-Not modelled (the correspondence filters them out / the generator does not produce them): delayed controls
-(history buffers), actearly, the setpoint wrapping of servos on ball joints / rotational sites (`wrapPeriod` > 0),
-PID / DC-motor / SO3 actuators, plugins, user callbacks, sleeping.
+  * the SOURCE of every local control: `d->ctrl[adr]` for an actuator without delay, `mj_readCtrl(m, d, i, d->time,
+    interp)` for a delayed one — i.e. `mju_historyRead` of the actuator's history buffer `[user, cursor, times(n),
+    values(n)]` at `time - delay` (circular binary search `historyFindIndex`, constant extrapolation at both ends,
+    exact-match, zero-order hold, linear and cubic (Catmull-Rom / Hermite) interpolation, in the operation order of
+    the C code) — and the ORDER "read, then clamp, then bad-control test" (`ctrlStageDelayed`);
+  * `actearly`: the force input of a stateful actuator is `mj_nextActivation(act, act_dot)` (C05's model
+    `Integrate.nextActivation`, tied to the engine by C05 and again here) instead of the current activation.
+Not modelled (the correspondence filters them out / the generator does not produce them): the setpoint wrapping of
+servos on ball joints / rotational sites (`wrapPeriod` > 0), PID / DC-motor / SO3 actuators, plugins, user callbacks,
+sleeping; the WRITING of history buffers (`mju_historyInsert`, done by `mj_advance`) is not modelled — the buffers
+the real `mj_step` produced are read back from `mjData` and fed to `historyRead`.
 -/
 import MjProof.Num
 import MjProof.Gen.Kernels
+import MjProof.Model.Integrate
 
 namespace MjProof.Actuation
 open MjProof MjProof.Gen
@@ -53,6 +62,142 @@ def ctrlStage (clampDisabled : Bool) (cs : List (Ctrl α)) : List α :=
   let clamped := cs.map (fun c => if clampDisabled then c.value else clampEntry c.limited c.value c.lo c.hi)
   if clamped.any (fun x => mju_isBad x != 0) then clamped.map (fun _ => zero) else clamped
 
+/-! ### delayed controls: `mj_readCtrl` / `mju_historyRead` (dim = 1) -/
+
+/-- one control history buffer `[user(1), cursor(1), times(n), values(n)]`; `n = times.length` -/
+structure History (α : Type) where
+  cursor : Nat              -- `(int) buf[1]`: physical index of the newest sample
+  times : List α
+  values : List α
+
+/-- `historyPhysicalIndex(cursor, n, logical)` -/
+def physIdx (cursor n logical : Nat) : Nat := (cursor + 1 + logical) % n
+
+/-- the `while (hi - lo > 1)` loop of `historyFindIndex` (`fuel` ≥ n suffices: `hi - lo` strictly decreases;
+    `none` if the fuel runs out or an index leaves the buffer) -/
+def bsearch (times : List α) (cursor : Nat) (t : α) : Nat → Nat → Nat → Option Nat
+  | 0, lo, hi => if hi - lo > 1 then none else some hi
+  | fuel + 1, lo, hi =>
+    if hi - lo > 1 then
+      let mid := (lo + hi) / 2
+      match times[physIdx cursor times.length mid]? with
+      | none => none
+      | some tm => if tm < t then bsearch times cursor t fuel mid hi else bsearch times cursor t fuel lo mid
+    else some hi
+
+/-- `historyFindIndex(times, n, cursor, t)`: logical index i with times[i-1] < t <= times[i] -/
+def findIndex (h : History α) (t : α) : Option Nat :=
+  let n := h.times.length
+  match h.times[physIdx h.cursor n 0]?, h.times[physIdx h.cursor n (n - 1)]? with
+  | some tOld, some tNew =>
+    if t ≤ tOld then some 0
+    else if tNew < t then some n
+    else bsearch h.times h.cursor t n 0 (n - 1)
+  | _, _ => none
+
+/-- the four Hermite basis values and the final combination of the cubic branch -/
+def cubic (alpha dt vLo vHi mLo mHi : α) : α :=
+  let alpha2 := alpha * alpha
+  let alpha3 := alpha2 * alpha
+  let h00 := (MjNum.ofInt 2 * alpha3 - MjNum.ofInt 3 * alpha2) + MjNum.ofInt 1
+  let h10 := (alpha3 - MjNum.ofInt 2 * alpha2) + alpha
+  let h01 := MjNum.ofInt (-2) * alpha3 + MjNum.ofInt 3 * alpha2
+  let h11 := alpha3 - alpha2
+  ((h00 * vLo + (h10 * dt) * mLo) + h01 * vHi) + (h11 * dt) * mHi
+
+/-- the interpolating part of `mju_historyRead` (t strictly inside the buffer, no exact match): `i` is the
+    bracketing logical index, `interp` 0 = zero-order hold, 1 = linear, anything else = cubic -/
+def interpolate (h : History α) (t : α) (interp : Int) (i : Nat) : Option α :=
+  let n := h.times.length
+  if i = 0 then none else
+  let pLo := physIdx h.cursor n (i - 1)
+  let pHi := physIdx h.cursor n i
+  match h.times[pLo]?, h.times[pHi]?, h.values[pLo]?, h.values[pHi]? with
+  | some tLo, some tHi, some vLo, some vHi =>
+    if interp = 0 then some vLo
+    else
+      let dt := tHi - tLo
+      let alpha := (t - tLo) / dt
+      if interp = 1 then some (vLo + alpha * (vHi - vLo))
+      else
+        let mLo : Option α :=
+          if i > 1 then
+            let pp := physIdx h.cursor n (i - 2)
+            match h.times[pp]?, h.values[pp]? with
+            | some tp, some vp => some ((vHi - vp) / (tHi - tp))
+            | _, _ => none
+          else some zero
+        let mHi : Option α :=
+          if i < n - 1 then
+            let pq := physIdx h.cursor n (i + 1)
+            match h.times[pq]?, h.values[pq]? with
+            | some tq, some vq => some ((vq - vLo) / (tq - tLo))
+            | _, _ => none
+          else some zero
+        match mLo, mHi with
+        | some mLo, some mHi => some (cubic alpha dt vLo vHi mLo mHi)
+        | _, _ => none
+  | _, _, _, _ => none
+
+/-- `mju_historyRead(buf, n, 1, &res, t, interp)` followed by `ptr ? *ptr : res` -/
+def historyRead (h : History α) (t : α) (interp : Int) : Option α :=
+  let n := h.times.length
+  if h.values.length ≠ n then none else
+  let pOld := physIdx h.cursor n 0
+  let pNew := physIdx h.cursor n (n - 1)
+  match h.times[pOld]?, h.times[pNew]? with
+  | some tOld, some tNew =>
+    if t ≤ tOld + minval then h.values[pOld]?
+    else if tNew - minval ≤ t then h.values[pNew]?
+    else
+      match findIndex h t with
+      | none => none
+      | some i =>
+        let pI := physIdx h.cursor n i
+        match h.times[pI]? with
+        | none => none
+        | some tI =>
+          if MjNum.abs (t - tI) < minval then h.values[pI]?
+          else interpolate h t interp i
+  | _, _ => none
+
+/-- what `mj_fwdActuation` knows about one scalar control input -/
+structure CtrlIn (α : Type) where
+  raw : α                   -- d->ctrl[actuator_ctrladr[i]]
+  limited : Bool
+  lo : α
+  hi : α
+  delay : α                 -- m->actuator_delay[i]
+  interp : Int              -- m->actuator_history[2i+1]
+  hist : Option (History α) -- `none`: nsample == 0 (no buffer)
+
+/-- `mj_readCtrl(m, d, i, time, interp)`: the current control when the actuator has no buffer -/
+def readCtrl (c : CtrlIn α) (time : α) : Option α :=
+  match c.hist with
+  | none => some c.raw
+  | some h => historyRead h (time - c.delay) c.interp
+
+/-- "read from ctrl or history buffer for delayed actuators": `if (m->actuator_delay[i]) … else copy` -/
+def ctrlSource (c : CtrlIn α) (time : α) : Option α :=
+  if MjNum.beq c.delay zero then some c.raw else readCtrl c time
+
+/-- the copy loop over all (scalar) controls; `none` if some buffer read leaves its buffer -/
+def ctrlSources (time : α) : List (CtrlIn α) → Option (List α)
+  | [] => some []
+  | c :: cs =>
+    match ctrlSource c time, ctrlSources time cs with
+    | some v, some vs => some (v :: vs)
+    | _, _ => none
+
+/-- the clamp-stage view of a control input whose source value is `v` -/
+def CtrlIn.withValue (c : CtrlIn α) (v : α) : Ctrl α := { value := v, limited := c.limited, lo := c.lo, hi := c.hi }
+
+/-- the local control vector with delays: sources first, THEN the clamp and the bad-control test of `ctrlStage` -/
+def ctrlStageDelayed (clampDisabled : Bool) (time : α) (cs : List (CtrlIn α)) : Option (List α) :=
+  match ctrlSources time cs with
+  | none => none
+  | some vs => some (ctrlStage clampDisabled ((cs.zip vs).map (fun cv => cv.1.withValue cv.2)))
+
 /-! ### activation dynamics -/
 
 inductive DynType | none | integrator | filter | filterexact | muscle | user
@@ -66,6 +211,11 @@ def actDot (t : DynType) (dynprm0 dynprm1 dynprm2 ctrl act : α) : α :=
   | .filter | .filterexact => (ctrl - act) / mju_max minval dynprm0
   | .muscle => mju_muscleDynamics ctrl act dynprm0 dynprm1 dynprm2
   | .user => zero
+
+/-- the activation a stateful SISO actuator feeds into the force law: `mj_nextActivation(m, d, i, act_adr,
+    d->act_dot[act_adr])` when `actuator_actearly[i]`, the current activation otherwise -/
+def forceInput (early : Bool) (p : Integrate.ActSlot α) (h act actDot : α) : α :=
+  if early then Integrate.nextActivation p h act actDot else act
 
 /-! ### force generation -/
 
